@@ -19,11 +19,19 @@ def mesh_asset(name, r):
   return f'<mesh name="m{name}" vertex="{family._v(pts.reshape(-1), 6)}"/>'
 
 
+def hfield_asset(name, r):
+  """a random terrain of 4..6 x 4..6 samples, 0.6 x 0.5 m half-extents, up to 0.2 m high"""
+  nr, nc = int(r.integers(4, 7)), int(r.integers(4, 7))
+  return f'<hfield name="h{name}" nrow="{nr}" ncol="{nc}" size="0.6 0.5 0.2 0.05" elevation="{family._v(r.uniform(0, 1, size=nr * nc), 3)}"/>'
+
+
 def geom_xml(name, t, g, r, pos, quat, explicit):
   s = r.uniform(0.06, 0.12, size=3)
   a = f' condim="{g["condim"]}" priority="{g["priority"]}" friction="{g["friction"] / 10} 0.01 0.001" margin="{g["margin"] / 1000}" solmix="{g["solmix"]}" solref="{0.01 + 0.004 * g["solmix"]} 1"'
   if t == "mesh":
     return f'<geom name="{name}" type="mesh" mesh="m{name}" pos="{family._v(pos)}" quat="{family._v(quat)}"{a}/>'
+  if t == "hfield":
+    return f'<geom name="{name}" type="hfield" hfield="h{name}" pos="{family._v(pos)}"{a}/>'
   size = {"plane": "2 2 .1", "sphere": family._v(s[:1]), "capsule": family._v(s[:2]), "cylinder": family._v(s[:2]), "ellipsoid": family._v(s), "box": family._v(s)}[t]
   return f'<geom name="{name}" type="{t}" size="{size}" pos="{family._v(pos)}" quat="{family._v(quat)}"{a}/>'
 
@@ -35,9 +43,11 @@ def build(case: Dict[str, Any], seed: int):
 
   c = case["c"]
   r = family.rng_for(c, seed, "collide")
-  qa = np.array([1.0, 0, 0, 0]) if c["t1"] == "plane" else family._unit(r, 4)
+  flat = c["t1"] in ("plane", "hfield")  # static, z up: the free geom is lowered onto it (a height field: over a random point of its inner part)
+  qa = np.array([1.0, 0, 0, 0]) if flat else family._unit(r, 4)
   qb = family._unit(r, 4)
-  direction = np.array([0, 0, 1.0]) if c["t1"] == "plane" else family._unit(r)
+  direction = np.array([0, 0, 1.0]) if flat else family._unit(r)
+  xy = np.array([r.uniform(-0.3, 0.3), r.uniform(-0.25, 0.25), 0.0]) if c["t1"] == "hfield" else np.zeros(3)
   target = PEN.get(c["pose"], -1.0)
   pair = ""
   if c["explicit"]:
@@ -51,14 +61,25 @@ def build(case: Dict[str, Any], seed: int):
     single = (c["t1"], c["t2"]) in (("capsule", "cylinder"), ("cylinder", "cylinder"), ("cylinder", "box"), ("capsule", "mesh"), ("cylinder", "mesh"))
     flag = '<flag multiccd="disable"/>' if single else ""
     assets = "".join(mesh_asset(nm, family.rng_for(c, seed, "mesh" + nm)) for nm, t in (("a", c["t1"]), ("b", c["t2"])) if t == "mesh")
+    assets += hfield_asset("a", family.rng_for(c, seed, "hfield")) if c["t1"] == "hfield" else ""
     assets = f"<asset>{assets}</asset>" if assets else ""
-    return (f'<mujoco><option gravity="0 0 0">{flag}</option>{assets}<worldbody>{ga}<body name="B" pos="{family._v(direction * dist_along, 7)}" quat="{family._v(qb, 7)}"><freejoint/>{gb}</body></worldbody>'
+    return (f'<mujoco><option gravity="0 0 0">{flag}</option>{assets}<worldbody>{ga}<body name="B" pos="{family._v(xy + direction * dist_along, 7)}" quat="{family._v(qb, 7)}"><freejoint/>{gb}</body></worldbody>'
             f'{pair}</mujoco>')
 
   def signed(dist_along):
     mm = mujoco.MjModel.from_xml_string(model(dist_along))
     dd = mujoco.MjData(mm)
     mujoco.mj_kinematics(mm, dd)
+    if c["t1"] == "hfield":
+      # mj_geomDistance has no height-field case, and mj_collision's height-field distances shift with the margin: penetration depth without margins
+      keep, keepp = mm.geom_margin.copy(), mm.pair_margin.copy()
+      mm.geom_margin[:] = 0.0
+      mm.pair_margin[:] = 0.0
+      mujoco.mj_collision(mm, dd)
+      sd = float(min((dd.contact.dist[i] for i in range(dd.ncon)), default=1.0))
+      mm.geom_margin[:] = keep
+      mm.pair_margin[:] = keepp
+      return sd, mm
     return mujoco.mj_geomDistance(mm, dd, 0, 1, 1.0, None), mm
 
   if c["pose"] == "engulfed":
@@ -67,6 +88,11 @@ def build(case: Dict[str, Any], seed: int):
     return mm, s, s
   # (a random hull need not contain its frame's origin: against a plane the search also looks below it, where the distance keeps decreasing)
   lo, hi = (-0.3 if c["t1"] == "plane" else 0.0), 0.8
+  lift = 0.0
+  if c["t1"] == "hfield":
+    lo, hi = 0.0, 1.0
+    if target >= 0:  # only penetration can be measured: find where the geom just touches, then lift it by the class's distance
+      lift, target = target + 1e-4, -1e-4
   for _ in range(40):
     mid = 0.5 * (lo + hi)
     s, _m = signed(mid)
@@ -74,8 +100,8 @@ def build(case: Dict[str, Any], seed: int):
       lo = mid
     else:
       hi = mid
-  s, mm = signed(0.5 * (lo + hi))
-  return mm, target, s
+  s, mm = signed(0.5 * (lo + hi) + lift)
+  return mm, (PEN.get(c["pose"], -1.0) if lift else target), (lift if lift else s)
 
 
 def contacts_of(mjd):
